@@ -395,6 +395,22 @@ func c04(c *an.Ctx) {
 					deferred := clr.OnlyDeferred()
 					covered := false
 					for _, d := range deferred.List {
+						ds, ok := f.G.Vs[d.V].Node.(*ast.DeferStmt)
+						if !ok {
+							continue
+						}
+						unconditional := false
+						if lit, isLit := ds.Call.Fun.(*ast.FuncLit); isLit {
+							// a deferred closure: the clear must lie on every path through it
+							g := f.Lit(lit, "deferredClear")
+							cs := g.Find(call(r, E+":shard.clearMstDeleting"))
+							unconditional = cs.Len() > 0 && g.FPath([]int{g.G.Entry}, g.G.Exit, cs.Vs(), nil) == nil
+						} else {
+							unconditional = true
+						}
+						if !unconditional {
+							continue
+						}
 						for _, st := range set.List {
 							if f.FPath(f.G.Vs[st.V].Succ, f.G.Exit, map[int]bool{d.V: true}, nil) == nil {
 								covered = true
